@@ -251,11 +251,15 @@ pub fn inv_mod_pow2(u: u64, f: u32) -> u64 {
 }
 
 /// "lone low bit" products: fractions u, v (f bits, both odd) with u*v = 1 (mod 2^f), so that
-/// (1 + u/2^f)(1 + v/2^f) = 1 + w/2^f + 2^-2f : a run of f-1 zeros and then a single 1 at the very
-/// bottom -- the only sticky information below bit f.  Returns (u, v, w) with w = u + v + (u*v >> f).
-pub fn lone_bit_pair(f: u32, rng: &mut StdRng) -> (u64, u64, u64) {
-    let u = (rng.gen::<u64>() & mask(f)) | 1;
-    let v = inv_mod_pow2(u, f);
-    let w = u + v + ((u * v) >> f);
-    (u, v, w)
+/// (1 + u/2^f)(1 + v/2^f) = 1 + w/2^f + 2^(j-2f): a run of zeros and then a single 1 near the very
+/// bottom -- the only sticky information below bit f.  Returns (u, v, w, j).
+pub fn lone_bit_pair(f: u32, rng: &mut StdRng) -> (u64, u64, u64, u32) {
+    // u = 2^j u' (u' odd), v = u'^-1 mod 2^f:  u v = 2^j (1 + m 2^f), so the product is
+    // 1 + (u + v + m 2^j)/2^f + 2^(j - 2f): the lone low bit sits j places above the very bottom
+    let j = [0u32, 0, 1, 1, 2, 3][rng.gen_range(0..6)].min(f - 2);
+    let u1 = (rng.gen::<u64>() & mask(f - j)) | 1;
+    let u = u1 << j;
+    let v = inv_mod_pow2(u1, f);
+    let w = u + v + (((u1 * v) >> f) << j);
+    (u, v, w, j)
 }
